@@ -17,6 +17,9 @@ pub struct Case {
     pub text: TextCase,
     pub radius: usize,
     pub header: Option<(String, String)>,
+    /// call `header()` with provisional names first (the last call counts)
+    #[serde(default)]
+    pub header_twice: bool,
     pub hint: bool,
     pub writers: Vec<WriterSched>,
 }
@@ -37,6 +40,9 @@ fn render_with<'a, T: DiffableStr + ?Sized>(
     let mut ud = diff.unified_diff();
     ud.context_radius(case.radius);
     if let Some((a, b)) = &case.header {
+        if case.header_twice {
+            ud.header("provisional-a", "provisional-b");
+        }
         ud.header(a, b);
     }
     ud.missing_newline_hint(case.hint);
@@ -77,6 +83,9 @@ fn write_with<'a, T: DiffableStr + ?Sized>(
     let mut ud = diff.unified_diff();
     ud.context_radius(case.radius);
     if let Some((a, b)) = &case.header {
+        if case.header_twice {
+            ud.header("provisional-a", "provisional-b");
+        }
         ud.header(a, b);
     }
     ud.missing_newline_hint(case.hint);
@@ -444,6 +453,7 @@ impl Prop for C05 {
                     seed: rng.next(),
                     hard,
                     hard_at: rng.below(60),
+                    vectored: rng.chance(1, 3),
                 }
             })
             .collect();
@@ -456,6 +466,7 @@ impl Prop for C05 {
                 *rng.pick(&[0usize, 0, 1, 1, 2, 3, 3, 5])
             },
             header,
+            header_twice: rng.chance(1, 5),
             hint: !rng.chance(1, 10),
             writers,
         }
@@ -479,6 +490,11 @@ impl Prop for C05 {
         if case.header.is_some() {
             let mut c = case.clone();
             c.header = None;
+            out.push(c);
+        }
+        if case.header_twice {
+            let mut c = case.clone();
+            c.header_twice = false;
             out.push(c);
         }
         if !case.hint {
